@@ -561,6 +561,69 @@ func main() {
 	}
 	close(jobs)
 	wg.Wait()
+
+	// ----- index sweep: an index token is a decimal number without sign, blanks or leading zeros.
+	// Every one-byte token (all 256 bytes) and every two-byte token over digits and 12 other bytes
+	// is resolved against arrays of 0..300 elements in four positions (document root, under a member,
+	// nested, under an escaped member name), in plain and fragment form (a seeded fast path for
+	// one-byte tokens needed an array of more than 10 elements and a non-digit byte).
+	{
+		var tokens []string
+		for b := 0; b < 256; b++ {
+			tokens = append(tokens, string([]byte{byte(b)}))
+		}
+		two := "0123456789-+ :;aA.e~%/"
+		for i := 0; i < len(two); i++ {
+			for j := 0; j < len(two); j++ {
+				tokens = append(tokens, two[i:i+1]+two[j:j+1])
+			}
+		}
+		tokens = append(tokens, "", "100", "253", "254", "255", "256", "299", "300", "301", "0300", "1e2", "18446744073709551615", "18446744073709551616", "4294967296", "-1", "+10")
+		var sweepN int64
+		for _, n := range []int{0, 1, 2, 9, 10, 11, 12, 17, 18, 49, 50, 64, 100, 253, 254, 255, 256, 257, 300} {
+			var arr strings.Builder
+			arr.WriteByte('[')
+			for i := 0; i < n; i++ {
+				if i > 0 {
+					arr.WriteByte(',')
+				}
+				fmt.Fprintf(&arr, "%d", 1000+i)
+			}
+			arr.WriteByte(']')
+			for _, form := range []struct{ doc, prefix string }{{arr.String(), "/"}, {`{"a":` + arr.String() + `}`, "/a/"}, {`[[0],` + arr.String() + `]`, "/1/"}, {`{"x/y":` + arr.String() + `}`, "/x~1y/"}} {
+				var root yaml.Node
+				if err := yaml.Unmarshal([]byte(form.doc), &root); err != nil {
+					vf.Fatal("index sweep document: %v", err)
+				}
+				for _, tok := range tokens {
+					for _, p := range []string{form.prefix + tok, "#" + form.prefix + url.PathEscape(tok)} {
+						if strings.ContainsAny(tok, "/~%") && p[0] == '/' {
+							continue // these bytes are pointer syntax, not part of a token
+						}
+						if p[0] == '#' && strings.ContainsAny(tok, "/~") {
+							continue
+						}
+						sweepN++
+						cl, k, _, _ := judge(form.doc, &root, p)
+						if cl != "" {
+							if len(k.Doc) > 200 {
+								k.Doc = k.Doc[:200] + fmt.Sprintf("... (array of %d elements)", n)
+							}
+							attrs := map[string]string{"class": cl, "pointer": p}
+							if cl == "node-returned-where-rfc-has-none" {
+								attrs["reason"] = reason(p)
+								attrs["class"] = cl + "/" + attrs["reason"]
+							}
+							r.Violation(attrs, len(p)+n, k)
+						}
+					}
+				}
+			}
+		}
+		r.Eval(sweepN)
+		r.NontrivialN(sweepN)
+		r.Set("index_sweep_pairs", sweepN)
+	}
 	r.Set("documents", len(docs))
 	r.Set("outside_oracle_lenient_tilde", lenientN)
 	r.Set("url_reference_strings", urlRefs)
